@@ -7,10 +7,11 @@ from props._mqtt import PKG, validate_traces, short
 INV = "INVARIANTS TypeOK RouteExact NoResidue Refines EntsAreSubs SessAreSubs TrieEmptyIffNoSubs NoDeadNodes\nPROPERTIES Others ResumeKeeps\n"
 
 
-def impl_cfg(filters, pairs, maxops, partial, pairwise=True):
+def impl_cfg(filters, pairs, maxops, partial, pairwise=True, partial_remove=False):
     return ("SPECIFICATION ISpec\nCONSTANTS\n  Clients = {\"c1\", \"c2\"}\n  Filters <- %s\n  Pairs %s\n  Topics <- CuratedTopics\n"
-            "  MaxOps = %d\n  Persistent = {\"c2\"}\n  PartialInsert = %s\n  ResumePairwise = %s\nVIEW iview\n" % (
-                filters, pairs, maxops, "TRUE" if partial else "FALSE", "TRUE" if pairwise else "FALSE")) + INV
+            "  MaxOps = %d\n  Persistent = {\"c2\"}\n  PartialInsert = %s\n  PartialRemove = %s\n  ResumePairwise = %s\nVIEW iview\n" % (
+                filters, pairs, maxops, "TRUE" if partial else "FALSE", "TRUE" if partial_remove else "FALSE",
+                "TRUE" if pairwise else "FALSE")) + INV
 
 
 GEN_CFG = ("SPECIFICATION GSpec\nCONSTANTS\n  Clients = {\"c1\", \"c2\"}\n  Filters <- CuratedFilters\n  Pairs <- CuratedPairs\n"
@@ -25,9 +26,12 @@ def run(ctx):
                        "them with a persistent session that is dropped and resumed), "
                        "replayed in lock-step on a real TopicManager+Session and on a real Broker with raw MQTT clients, every probe "
                        "topic looked up after every operation; traces = seeded random histories (4 clients, level grammar with "
-                       "empty / multi-byte levels, '+', '#', malformed filters) of the real code validated by TLC; non-trivial = "
+                       "empty / multi-byte levels, '+', '#', malformed filters alone and mixed with well-formed ones in SUBSCRIBE and UNSUBSCRIBE "
+                       "packets; after every operation lookups of topics made for the filters it touched, fresh and looked up before) of "
+                       "the real code validated by TLC; non-trivial = "
                        "behaviours/traces in which some probe is routed to somebody")
-    ctx.assumptions += ["topic names contain no wildcard characters; UNSUBSCRIBE packets carry well-formed filters",
+    ctx.assumptions += ["topic names contain no wildcard characters; which well-formed filters of an UNSUBSCRIBE that also carries a "
+                        "malformed filter are removed is left open (any subset), but every later lookup must agree with one choice",
                         "the '$'-prefix rule of MQTT 3.1.1 4.7.2 is not part of the property and not checked",
                         "disconnect = end of a session (a clean session with its connection, a persistent one by a clean takeover); "
                         "resume = a persistent session's connection drops and the client reconnects with cleanSession=false, taken as "
@@ -50,6 +54,10 @@ def _mc(ctx):
     r = ctx.tlc_mc("MqttTopicsImpl", impl_cfg("SmallFilters", "= {}", depth, False),
                    label="trie refines contract, 7 filters, histories <= %d" % depth, timeout=1500)
     ctx.log("trie model refines the contract (7 filters, %d ops): %d distinct states" % (depth, r.distinct))
+    # UNSUBSCRIBE packets that mix well-formed and malformed filters (either order): every well-formed one leaves the trie
+    r = ctx.tlc_mc("MqttTopicsImpl", impl_cfg("SmallFilters", "<- SmallPairs", 3, False),
+                   label="trie refines contract, 7 filters + 2 packets mixing well-formed and malformed filters, histories <= 3", timeout=900)
+    ctx.log("trie model refines the contract (7 filters, mixed packets, 3 ops): %d distinct states" % r.distinct)
     if not ctx.quick:
         r = ctx.tlc_mc("MqttTopicsImpl", impl_cfg("CuratedFilters", "<- CuratedPairs", 3, False),
                        label="trie refines contract, curated universe, histories <= 3", timeout=1500)
@@ -61,12 +69,26 @@ def _mc(ctx):
         ctx.notes.append("lead from TLC (model of the pinned tree): %s violated - a rejected multi-filter SUBSCRIBE leaves trie "
                          "entries that teardown does not remove; confirmed or refuted on the real code by the trace phase" % r.violated)
         ctx.log("lead: pinned-tree trie model violates %s" % r.violated)
+    # lead generation: TopicManager.unsubscribe as the pinned tree is written (stops at the first malformed filter, while the
+    # session forgets every filter of the packet)
+    r = ctx.tlc_mc("MqttTopicsImpl", impl_cfg("SmallFilters", "<- SmallPairs", 3, False, partial_remove=True), expect_ok=False, count=False,
+                   label="pinned-tree model (partial remove)", timeout=600)
+    if not r.ok:
+        ctx.notes.append("lead from TLC (model of the pinned tree): %s violated - an UNSUBSCRIBE whose malformed filter precedes a subscribed "
+                         "one leaves that filter in the trie while the session forgets it, so teardown never removes it; confirmed or "
+                         "refuted on the real code by the trace phase" % r.violated)
+        ctx.log("lead: pinned-tree trie model (partial remove) violates %s" % r.violated)
     # the model must be able to tell a resume that hands the QoS values out in another order from the contract
     r = ctx.tlc_mc("MqttTopicsImpl", impl_cfg("CuratedFilters", "<- CuratedPairs", 2, False, pairwise=False), expect_ok=False, count=False,
                    label="resume re-subscribes with permuted QoS (must be refuted)", timeout=600)
     if r.ok:
         ctx.inconclusive("the trie model does not distinguish a resume with permuted QoS values from the contract")
     ctx.log("model of a resume with permuted QoS refuted: %s" % r.violated)
+
+
+def _valid(f):
+    """is the filter (list of levels, a level a list of characters) well-formed? (signature detail only)"""
+    return len(f) >= 1 and all((("#" not in l) or (l == ["#"] and i == len(f) - 1)) and (("+" not in l) or l == ["+"]) for i, l in enumerate(f))
 
 
 def _routed(b):
@@ -101,23 +123,54 @@ def _mbt(ctx):
     with open(inp, "w") as fh:
         for b in behs:
             fh.write(jdump(b) + "\n")
+    # wall-clock budget of a replay: on a busy machine the broker binding (a round trip and goroutine barriers per step) can be
+    # many times slower than usual; what is not reached within the budget is left out (and must not be most of it)
+    from props._mqtt import build_test_binary, run_shards
+    budgets = {"direct": 300, "broker": 90 if ctx.quick else 600}
+    binp = build_test_binary(ctx)
+    nsh = {"direct": 1, "broker": 2 if ctx.quick else 6}          # processes per binding (the broker binding is mostly waiting)
+    envs = []
     for mode in ("direct", "broker"):
-        outp = ctx.path("c14_replay_%s.ndjson" % mode)
-        rc, out = ctx.go_test(PKG, "^TestVerifC14Replay$", env={"VERIF_IN": inp, "VERIF_OUT": outp, "VERIF_MODE": mode}, timeout=1500)
-        recs = ctx.read_ndjson(outp)
-        summ = [x for x in recs if x.get("k") == "summary"]
+        for i in range(nsh[mode]):
+            part = inp
+            if nsh[mode] > 1:                      # every process gets its own share of the behaviours
+                part = ctx.path("c14_behs_%s_%d.ndjson" % (mode, i))
+                with open(part, "w") as fh:
+                    for b in behs[i::nsh[mode]]:
+                        fh.write(jdump(b) + "\n")
+            envs.append({"VERIF_IN": part, "VERIF_OUT": ctx.path("c14_replay_%s_%d.ndjson" % (mode, i)), "VERIF_MODE": mode,
+                         "VERIF_BUDGET_S": budgets[mode]})
+    res = run_shards(ctx, binp, "^TestVerifC14Replay$", envs, timeout=1200)
+    for mode in ("direct", "broker"):
+        budget = budgets[mode]
+        recs, summ, rc, out = [], [], 0, ""
+        for env, (rc1, out1) in zip(envs, res):
+            if env["VERIF_MODE"] != mode:
+                continue
+            r1 = ctx.read_ndjson(env["VERIF_OUT"])
+            s1 = [x for x in r1 if x.get("k") == "summary"]
+            if rc1 != 0 or not s1:
+                rc, out, summ = rc1 or 1, out1, []
+                break
+            recs += r1
+            summ = [{k: (summ[0][k] + v if summ and isinstance(v, int) else v) for k, v in s1[0].items()}]
         if rc != 0 or not summ:
             ctx.inconclusive("C14 replay harness (%s) failed:\n%s" % (mode, out[-3000:]))
+        done = summ[0].get("replayed", len(behs))
+        if done < len(behs):
+            ctx.notes.append("%s binding: %d of %d behaviours replayed within the budget of %ds (busy machine)" % (mode, done, len(behs), budget))
+            if done < min(len(behs), 200) and not ctx.violations:
+                ctx.inconclusive("C14 replay harness (%s) got through only %d of %d behaviours in %ds" % (mode, done, len(behs), budget))
         if summ[0]["harness_failures"]:
             bad = [x for x in recs if x.get("k") == "mismatch" and x["sig"].get("kind") == "harness"]
-            if summ[0]["harness_failures"] > max(1, len(behs) // 100) and not ctx.violations:
+            if summ[0]["harness_failures"] > max(2, done // 50) and not ctx.violations:
                 ctx.inconclusive("C14 replay harness (%s) could not drive the broker in %d behaviours: %s" % (
                     mode, summ[0]["harness_failures"], bad[0]["what"] if bad else "?"))
             ctx.notes.append("%d behaviours (%s binding) left out, harness could not drive the broker" % (summ[0]["harness_failures"], mode))
         ctx.evals(summ[0]["probes"])
-        ctx.traces(len(behs))
+        ctx.traces(done)
         ctx.log("replayed %d behaviours (%d steps, %d lookups) on the real code, binding %s: %d mismatches" % (
-            len(behs), summ[0]["steps"], summ[0]["probes"], mode, summ[0]["mismatches"]))
+            done, summ[0]["steps"], summ[0]["probes"], mode, summ[0]["mismatches"]))
         for m in [x for x in recs if x.get("k") == "mismatch" and x["sig"].get("kind") != "harness"]:
             sig = dict(m["sig"])
             sig["mode"] = mode
@@ -133,22 +186,32 @@ def _mbt(ctx):
 
 
 def _tv(ctx):
+    # family of packets mixing well-formed and malformed filters: 0 none, 1 SUBSCRIBE, 2 UNSUBSCRIBE with the malformed filter
+    # last, 3 UNSUBSCRIBE with the malformed filter anywhere (kept apart: a known finding in one family ends the histories it hits)
     plans = [("direct", 0, 12 if ctx.quick else 150, 80 if ctx.quick else 300),
              ("broker", 0, 10 if ctx.quick else 100, 60 if ctx.quick else 200),
              ("broker", 1, 4 if ctx.quick else 30, 60 if ctx.quick else 150),
-             ("direct", 1, 4 if ctx.quick else 30, 60 if ctx.quick else 150)]
-    for mode, multifail, n, steps in plans:
-        name = "c14_trace_%s_%d" % (mode, multifail)
-        tp = ctx.path(name + ".ndjson")
-        rc, out = ctx.go_test(PKG, "^TestVerifC14Trace$", env={"VERIF_OUT": tp, "VERIF_MODE": mode, "VERIF_N": n, "VERIF_STEPS": steps,
-                                                              "VERIF_MULTIFAIL": multifail, "VERIF_SALT": multifail}, timeout=1500)
-        ev = ctx.read_ndjson(tp)
+             ("direct", 1, 4 if ctx.quick else 30, 60 if ctx.quick else 150),
+             ("direct", 2, 8 if ctx.quick else 60, 80 if ctx.quick else 200),
+             ("broker", 2, 5 if ctx.quick else 40, 60 if ctx.quick else 150),
+             ("direct", 3, 5 if ctx.quick else 40, 60 if ctx.quick else 150),
+             ("broker", 3, 3 if ctx.quick else 30, 60 if ctx.quick else 150)]
+    families = {0: "plain", 1: "multifail", 2: "unsubfail-last", 3: "unsubfail-any"}
+    from props._mqtt import split_traces, build_test_binary, run_shards
+    # all plans run side by side (one compiled harness); the recorded histories are validated in two TLC runs: the families that
+    # are free of known findings together, the family that a known finding can end histories of on its own
+    binp = build_test_binary(ctx)
+    envs = [{"VERIF_OUT": ctx.path("c14_trace_%s_%d.ndjson" % (mode, fam)), "VERIF_MODE": mode, "VERIF_N": n, "VERIF_STEPS": steps,
+             "VERIF_MULTIFAIL": fam, "VERIF_SALT": fam} for mode, fam, n, steps in plans]
+    res = run_shards(ctx, binp, "^TestVerifC14Trace$", envs, timeout=1500)
+    groups = {"a": [], "b": []}
+    for (mode, fam, n, steps), env, (rc, out) in zip(plans, envs, res):
+        ev = ctx.read_ndjson(env["VERIF_OUT"])
         if rc != 0 or not ev:
             ctx.inconclusive("C14 trace harness (%s) failed:\n%s" % (mode, out[-3000:]))
         hf = [e for e in ev if e.get("ev") in ("harness-failure", "probe-error")]
         if hf:
             # a history the harness could not complete (a broker that did not answer in 20s on a busy machine) is left out
-            from props._mqtt import split_traces
             keep = []
             for a, b in split_traces(ev):
                 if not any(e.get("ev") in ("harness-failure", "probe-error") for e in ev[a:b]):
@@ -158,26 +221,40 @@ def _tv(ctx):
             ctx.notes.append("%d of %d histories (%s binding) left out, harness could not drive the system: %s" % (len(hf), n, mode, short(hf[0], 200)))
             ev = keep
         ctx.evals(sum(1 for e in ev if e["ev"] == "probe"))
-
-        def on_reject(seg, whole, tr, mode=mode, multifail=multifail):
-            last = seg[-1]
-            # signature detail: does the unexplained lookup answer contain a client that earlier had a SUBSCRIBE rejected
-            # whose well-formed filters preceded the malformed one (the input class of finding rejected-subscribe-leaves-residue)?
-            cands = {e["c"] for e in seg if e["ev"] == "sub" and not e["ok"] and len(e["fs"]) > 1}
-            answered = {x["c"] for x in last.get("r", [])} if last.get("ev") == "probe" else set()
-            sig = {"kind": "trace", "mode": mode, "family": "multifail" if multifail else "plain", "ev": last.get("ev"),
-                   "residue_of_rejected_sub": bool(cands & answered)}
-            ctx.violation(sig, "recorded history of the real topic routing (%s binding) is not a behaviour of the contract: first "
-                          "unexplained event %s%s" % (mode, short(last, 300), ", invariant %s" % tr.inv if tr.inv else ""), seg[-40:])
-
-        ok = validate_traces(ctx, "MqttTopics_Trace", TRACE_CFG, ev, name, on_reject)
-        ctx.traces(ok)
-        ctx.log("validated %d/%d recorded histories (%s binding%s)" % (ok, n, mode, ", rejected multi-filter SUBSCRIBEs" if multifail else ""))
+        for e in ev:
+            e["pl"] = "%s/%d" % (mode, fam)          # (not looked at by the trace specification)
+        groups["b" if fam == 3 else "a"] += ev
         cur = []
         for e in ev + [{"ev": "reset"}]:
             if e["ev"] == "reset":
                 if any(x["ev"] == "probe" and x["r"] for x in cur):
-                    ctx.nontrivial({"t": cur[:50]})
+                    ctx.nontrivial({"t": [{k: v for k, v in x.items() if k != "pl"} for x in cur[:50]]})
                 cur = []
             cur.append(e)
         ctx.sample({"kind": "recorded-trace", "mode": mode, "events": [short(e, 200) for e in ev[1:6]]})
+
+    def on_reject(seg, whole, tr):
+        last = seg[-1]
+        mode, fam = last["pl"].split("/")
+        # signature detail: does the unexplained lookup answer contain a client that earlier had a SUBSCRIBE rejected
+        # whose well-formed filters preceded the malformed one (the input class of finding rejected-subscribe-leaves-residue)?
+        cands = {e["c"] for e in seg if e["ev"] == "sub" and not e["ok"] and len(e["fs"]) > 1}
+        answered = {x["c"] for x in last.get("r", [])} if last.get("ev") == "probe" else set()
+        # ... or a client that sent an UNSUBSCRIBE in which a malformed filter preceded a well-formed one and whose session
+        # ended afterwards (the input class of finding rejected-unsubscribe-leaves-residue)
+        ucands, pending = set(), set()
+        for e in seg:
+            if e["ev"] == "unsub" and any(not _valid(f) and any(_valid(g) for g in e["fs"][i + 1:]) for i, f in enumerate(e["fs"])):
+                pending.add(e["c"])
+            elif e["ev"] in ("disc", "takeover") and e["c"] in pending:
+                ucands.add(e["c"])
+        sig = {"kind": "trace", "mode": mode, "family": families[int(fam)], "ev": last.get("ev"),
+               "residue_of_rejected_sub": bool(cands & answered), "residue_of_rejected_unsub": bool(ucands & answered)}
+        ctx.violation(sig, "recorded history of the real topic routing (%s binding, family %s) is not a behaviour of the contract: first "
+                      "unexplained event %s%s" % (mode, families[int(fam)], short(last, 300), ", invariant %s" % tr.inv if tr.inv else ""), seg[-40:])
+
+    for g, what in (("a", "families plain, multifail, unsubfail-last"), ("b", "family unsubfail-any")):
+        total = len(split_traces(groups[g])) if groups[g] else 0
+        ok = validate_traces(ctx, "MqttTopics_Trace", TRACE_CFG, groups[g], "c14_trace_" + g, on_reject, max_rounds=8)
+        ctx.traces(ok)
+        ctx.log("validated %d/%d recorded histories (both bindings, %s)" % (ok, total, what))
